@@ -140,7 +140,9 @@ Definition is_default (l : list Z) : bool := (Nat.eqb (List.length l) 0) || fora
 Definition effective_coords (l : list Z) : list Z := if is_default l then [] else l.
 
 (* ---------- HintingInstance (outline/hint.rs) ---------- *)
-Inductive kind := KNone | KGlyf (h : hstate) | KCff (subfonts : list Z) | KAuto (inst : Z).
+(* KAuto: the autohint::Instance (styles, target, ... as one number) and its lazily filled per-style metrics cache
+   (UnscaledStyleMetricsSet::Lazy: style index -> metrics), shared by clones and filled by draws *)
+Inductive kind := KNone | KGlyf (h : hstate) | KCff (subfonts : list Z) | KAuto (inst : Z) (cache : list (Z * Z)).
 Record outer := { o_size : Z; o_coords : list Z; o_target : Z; o_kind : kind }.
 Inductive engine := EInterp | EAuto.
 Inductive fmt := FGlyf | FCff | FNone.
@@ -164,6 +166,7 @@ Section Outer.
   Variable rf : list string.
   Variable otbl : list (string * action).                      (* Gen.hinting_instance_table *)
   Variable cleared : bool.                                     (* `subfonts.clear()` present *)
+  Variable reuse_auto : bool.                                  (* the Auto arm carries the replaced instance over *)
 
   (* pub fn reconfigure(&mut self, outlines, size, location, options) -> Result<(), DrawError>
      returns (ok?, new self) *)
@@ -191,9 +194,43 @@ Section Outer.
         end
     | EInterp, FNone => (true, mk none)
     | EAuto, FNone => (true, mk none)                         (* outlines.font() is None *)
-    | EAuto, _ => (true, mk (KAuto (auto_new cfg coords)))
+    | EAuto, _ =>
+        let cache := if reuse_auto then match current with KAuto _ c => c | _ => [] end else [] in
+        (true, mk (KAuto (auto_new cfg coords) cache))     (* Instance::new: UnscaledStyleMetricsSet::lazy(..) *)
     end.
 End Outer.
+
+(* the extracted facts about the Auto arm, assembled: true = some path lets the previous instance (and with it
+   the per-(font, location) metrics cache) reach the new one *)
+Definition gen_auto_reuse : bool :=
+  auto_arm_reuses_previous || autohint_new_takes_previous || negb autohint_lazy_fields_built_fresh.
+
+(* ---------- the autohinter's lazily filled metrics cache ----------
+   UnscaledStyleMetricsSet::get(font, coords, .., glyph): return the cached metrics of the glyph's style or
+   compute them from (font, coords) and store them.  [compute] abstracts compute_unscaled_style_metrics. *)
+Fixpoint cache_get (st : Z) (c : list (Z * Z)) : option Z :=
+  match c with
+  | [] => None
+  | (k, m) :: r => if k =? st then Some m else cache_get st r
+  end.
+
+Section AutoCache.
+  Variable compute : list Z -> Z -> Z.                 (* coords (the font is fixed), style -> metrics *)
+  Definition auto_get (coords : list Z) (c : list (Z * Z)) (st : Z) : list (Z * Z) * Z :=
+    match cache_get st c with
+    | Some m => (c, m)
+    | None => let m := compute coords st in ((st, m) :: c, m)
+    end.
+  (* a sequence of draws (styles of the drawn glyphs) through one instance *)
+  Fixpoint auto_draw_all (coords : list Z) (c : list (Z * Z)) (sts : list Z) : list (Z * Z) * list Z :=
+    match sts with
+    | [] => (c, [])
+    | st :: r => let '(c1, m) := auto_get coords c st in
+                 let '(c2, ms) := auto_draw_all coords c1 r in (c2, m :: ms)
+    end.
+  Definition cache_sound (coords : list Z) (c : list (Z * Z)) : Prop :=
+    forall st m, cache_get st c = Some m -> m = compute coords st.
+End AutoCache.
 
 (* ---------- correspondence cases (harness/src/bin/c12.rs) ---------- *)
 Inductive case :=
